@@ -10,13 +10,13 @@ export VERIF_REPO="$REPO"
 [ -f "$REPO/Cargo.lock" ] || cp /repo/Cargo.lock "$REPO/Cargo.lock"
 alarms=0
 for b in benign/*${1:-}*.patch; do
-  git -C "$REPO" checkout -q -- . ; git -C "$REPO" apply "$PWD/$b" || { echo "$b: DOES NOT APPLY"; alarms=$((alarms+1)); continue; }
+  git -C "$REPO" checkout -q -- . ; git -C "$REPO" clean -fdq ; git -C "$REPO" apply "$PWD/$b" || { echo "$b: DOES NOT APPLY"; alarms=$((alarms+1)); continue; }
   for p in C01 C02 C03 C04 C05 C06 C07 C08 C09 C10 C11 C12 C13 C14 C15 C16 C17 C18 C19; do
     out=$(JLMC_SKIP_MIRI=1 ./check "$p" quick 2>&1); rc=$?
     if [ $rc -ne 0 ]; then echo "$(basename $b): $p FALSE ALARM (exit $rc)"; echo "$out" | grep -E "^  \[|MACH" | head -3 | cut -c1-300; alarms=$((alarms+1)); fi
   done
   echo "$(basename $b): done"
-  git -C "$REPO" checkout -q -- .
+  git -C "$REPO" checkout -q -- . ; git -C "$REPO" clean -fdq
 done
 echo "SUMMARY: $alarms false alarm(s)"
 [ $alarms -eq 0 ]
